@@ -110,13 +110,16 @@ def cases(rng, tier):
             fs = FINAL[1:4] if hf else [["pass"]]
             for e, l, f in itertools.product(es, ls, fs):
                 k += 1
-                if tier == "quick" and k % 4:
+                if tier == "quick" and k % 5:
                     continue
                 pfd = (k % 9 == 0)
                 out.append({"w": "contingency", "opts": {"exc": he, "else": hl, "fin": hf, "auto": auto, "pfd": pfd},
                             "plans": [p, e, l, f], "alpha": "wide" if k % 5 == 0 else "core",
                             "depth": depth - 1 if (he and hl and hf) or pfd else depth})
     # random plans
+    for c in out:
+        if c["alpha"] == "wide" and c["depth"] > 3:
+            c["depth"] -= 1                       # 8-letter alphabet: one step shorter
     nrand = 150 if tier == "quick" else 3000
     for _ in range(nrand):
         plans = [G.rand_stmt(rng, rng.randint(2, 8)) for _ in range(4)]
